@@ -200,6 +200,31 @@ pub fn run_c16(cx: &mut Cx) {
                 q.proof_json = v2.to_string();
                 deliver(cx, verifier, q, format!("forged_far_retarget:{dname}"), false);
             }
+            // Mallory: the MIRROR image.  E* = g^(a+b) / E commits to a + b - x (with randomness -r):
+            // also inside [a, b], but Mallory knows neither x nor r.  With E'* = E*^(2^T) the a-side of
+            // the new statement is the b-side of the old one and vice versa, so the eight a- / b-side
+            // members are swapped and nothing else changes: a proof for a commitment nobody opened
+            if x != Integer::from(&a + &b) - &x {
+                let mut v2 = v.clone();
+                if let Some(e0) = get(&v, "E") {
+                    if let Ok(inv) = e0.clone().invert(&n) {
+                        let e_new = Integer::from(gpow(&Integer::from(&a + &b)) * inv) % &n;
+                        set_leaf(&mut v2, "E", &e_new);
+                        set_leaf(&mut v2, "E_prime", &pow(&e_new, &two_t, &n));
+                        if let Some(serde_json::Value::Object(pt)) = v2.get_mut("proof_of_tolerance") {
+                            for (ka, kb) in [("E_a_1", "E_b_1"), ("E_a_2", "E_b_2"), ("proof_of_square_a", "proof_of_square_b"), ("proof_large_i_a", "proof_large_i_b")] {
+                                let (xa, xb) = (pt.get(ka).cloned(), pt.get(kb).cloned());
+                                if let (Some(xa), Some(xb)) = (xa, xb) { pt.insert(ka.to_string(), xb); pt.insert(kb.to_string(), xa); }
+                            }
+                        }
+                        let mut q = f.clone();
+                        q.e_expected = e_new;
+                        q.proof_json = v2.to_string();
+                        cx.count("probe.mirror_image_of_an_honest_proof");
+                        deliver(cx, verifier, q, "forged_mirror:a+b-x".into(), false);
+                    }
+                }
+            }
         }
     });
     // the proof is generic in the hash: the same honest flow with a 64-octet digest (SHA-512)
